@@ -344,7 +344,50 @@ def _sweep(world, samplers, case, keys, mts, trees, tags, budget_):
     if d > 1e-9:
         i, j = np.unravel_index(np.abs(K - expected).argmax(), K.shape)
         raise Violation("sweep/composition", "run-loop sweep kernel differs from ((1-s)K_pg+sK_sub)K_dp K_prg by %.3e at %r -> %r (s=%s)" % (d, mts[i], mts[j], s), dict(tags, residual=d))
-    return K, l1 + l2 + l3 + l4 + l5, d
+    l6 = 0
+    if not (case.get("outlier_prior", 0.0) > 0) and case.get("prev_alpha") is None:
+        # second iteration after a concentration update: EVERY move of the sweep (whole-tree, subtree, data-point,
+        # prune-regraft) has to work under the updated value.  Checked for the cheap no-outlier state space only.
+        a0 = float(td.prior.alpha)
+        a1 = 2.5 if a0 != 2.5 else 0.4
+
+        class Stub:
+            def sample(self, old, k, nn):
+                return a1
+
+        real = holder.conc_sampler
+        try:
+            td.prior.alpha = a1
+            mats = []
+            for nm in ("pg", "sub"):
+                Kx, lx = exact.transition_matrix(samplers[nm].sample_tree, keys, trees, rng, comp + "/" + nm, tags, budget_)
+                mats.append(Kx)
+                l6 += lx
+            td.prior.alpha = a0
+            # the data-point and prune-regraft moves are switched off in this two-iteration run to keep the
+            # enumeration small (they read the distribution object directly and are covered by the one-iteration check)
+            expected2 = ((1 - s) * Kpg + s * Ksub) @ ((1 - s) * mats[0] + s * mats[1])
+            holder.conc_sampler = Stub()
+
+            def two_iter(tree):
+                td.prior.alpha = a0
+                with contextlib.redirect_stdout(io.StringIO()):
+                    res = prun._run_main_sampler(True, data, float("inf"), 2, 0, 0, 10 ** 9, holder, ["s"], 1, Timer(), tree, td, 0, rng, s)
+                return Tree.from_dict(res["trace"][-1]["tree"])
+
+            try:
+                K2, lx = exact.transition_matrix(two_iter, keys, trees, rng, comp, tags, 30000)
+                l6 += lx
+                d2 = float(np.abs(K2 - expected2).max())
+                if d2 > 1e-9:
+                    i, j = np.unravel_index(np.abs(K2 - expected2).argmax(), K2.shape)
+                    raise Violation("sweep/after-concentration-update", "two run-loop sweeps across a concentration update (%.3g -> %.3g, s=%s) differ from the product of the component kernels under the respective values by %.3e at %r -> %r" % (a0, a1, s, d2, mts[i], mts[j]), dict(tags, residual=d2))
+            except exact.Inconclusive:
+                pass
+        finally:
+            holder.conc_sampler = real
+            td.prior.alpha = a0
+    return K, l1 + l2 + l3 + l4 + l5 + l6, d
 
 
 def shrink_candidates(case):
